@@ -200,8 +200,12 @@ def run(report):
     reqs = []
     for c, r in zip(cases, results):
         cmd = {"run": "run", "summary": "summary", "fmt": "fmt"}.get(c["cmd"][0], "other")
-        reqs.append({"op": "unstable", "root": r["model"], "flag": c["optin"][0] == "flag",
-                     "env": c["optin"][1] if c["optin"][0] == "env" else None, "cmd": cmd})
+        req = {"op": "unstable", "root": r["model"], "flag": c["optin"][0] == "flag",
+               "env": c["optin"][1] if c["optin"][0] == "env" else None, "cmd": cmd}
+        if c.get("via", "direct") != "direct":
+            req["below"] = [{"root": {"exprs": [], "scriptRecipe": False, "scriptInterpreter": False,
+                                      "setUnstable": c["via"] == "fallback-child-unstable", "subs": []}, "fallback": True}]
+        reqs.append(req)
     model = drv.pbatch(reqs, chunk=3000)
     stats = {"cases": len(cases), "space": total, "refused": 0, "proceeded": 0, "by_construct": {}, "env_values": {}, "via": {}}
     distinct = set()
@@ -245,6 +249,9 @@ def run(report):
         if not r["refused"] and cmdname == "run" and r["rc"] != 0:
             report.failure("c19-run-failed", "accepted justfile did not run: " + r["stderr"][-200:], replay, no_input=True)
             continue
+        if c.get("via", "direct") != "direct" and (m["fallback"] == "refused:1") != r["refused"]:
+            report.failure("c19-model-fallback", "Just.Unstable.runFallback and the implementation disagree (statement oracle holds)",
+                           dict(replay, correspondence="C19 vs Just.Unstable.runFallback", model=m), no_input=True)
         if m["proceeds"] == r["refused"]:
             report.failure("c19-model", "Lean model and implementation disagree (statement oracle holds)",
                            dict(replay, correspondence="C19 vs Just.Unstable.proceeds", model=m), no_input=True)
